@@ -876,6 +876,24 @@ def readNum (t : List Char) : Option NumLit :=
 
 def splitCommas : List Char → List (List Char) := splitOnChar ','
 
+/-- the items of a blank-separated (numpy-style) list with the number of blanks after each -/
+def readBItems : Nat → List Char → Option (List (NumLit × Nat))
+  | 0, _ => Option.none
+  | _ + 1, [] => some []
+  | fuel + 1, cs =>
+    let tok := cs.takeWhile (· != ' ')
+    let rest := cs.dropWhile (· != ' ')
+    let g := (rest.takeWhile (· == ' ')).length
+    match readNum tok, readBItems fuel (rest.dropWhile (· == ' ')) with
+    | some n, some t => some ((n, g) :: t)
+    | _, _ => Option.none
+
+/-- `[ a  b c ]` without commas: the form `str(numpy.ndarray)` prints -/
+def readBList (r : List Char) : Option Lit :=
+  let inner := r.dropLast
+  let pre := (inner.takeWhile (· == ' ')).length
+  (readBItems (inner.length + 1) (inner.dropWhile (· == ' '))).map (Lit.blist pre)
+
 /-- the literal tree a printed flag text would be the rendering of -/
 def readLit (t : List Char) : Option Lit :=
   if t = "None".toList then some .none
@@ -885,6 +903,8 @@ def readLit (t : List Char) : Option Lit :=
     | '\'' :: r => some (.str false r.dropLast)
     | '[' :: r =>
       if r = [']'] then some (.list [])
+      else if r.contains ',' then ((splitCommas r.dropLast).mapM readNum).map Lit.list
+      else if r.contains ' ' then readBList r
       else ((splitCommas r.dropLast).mapM readNum).map Lit.list
     | _ => (readNum t).map NumLit.toLit
 
